@@ -549,7 +549,7 @@ def selftest(ctx) -> None:
 
 
 def run(ctx) -> None:
-    parallel(ctx, _shard, [(ctx.n(40, 1500),)] * 16)
+    parallel(ctx, _shard, [(ctx.n(80, 1500),)] * 16)
     ctx.exhaustive = False
 
 
